@@ -1,6 +1,6 @@
 #!/bin/bash
 # Regression test of the checks themselves: applies every seeded change to /repo's working tree
-# (never committed), runs the quick check of the property it was seeded for, compares the exit code
+# (never committed), runs the check of the property it was seeded for (quick tier unless meta.json names another), compares the exit code
 # with the one recorded in seeded/<id>/meta.json, and restores the tree. Not a registered check.
 # usage: ./selftest_seeds.sh [pattern]      e.g. ./selftest_seeds.sh C06
 cd "$(dirname "$0")"
@@ -10,8 +10,9 @@ for d in seeded/*${1}*/; do
   id=$(basename $d)
   prop=$(python3 -c "import json;print(json.load(open('$d/meta.json'))['property'])")
   want=$(python3 -c "import json;print(json.load(open('$d/meta.json'))['detected_by']['exit'])")
+  tier=$(python3 -c "import json;print(json.load(open('$d/meta.json'))['detected_by'].get('tier','quick'))")
   git -C /repo apply "$PWD/$d/patch.diff" || { echo "$id: patch does not apply"; fail=1; continue; }
-  out=$(timeout 3600 ./check $prop --tier quick 2>&1); rc=$?
+  out=$(timeout 7200 ./check $prop --tier $tier 2>&1); rc=$?
   git -C /repo checkout -- . ; git -C /repo clean -fdq
   first=$(echo "$out" | grep -m1 '^  harness=' | sed 's/ native=.*//' | cut -c1-160)
   if [ "$rc" = "$want" ]; then echo "ok   $id ($prop) exit=$rc $first"; else echo "FAIL $id ($prop) exit=$rc, recorded $want $first"; fail=1; fi
